@@ -79,9 +79,9 @@ Properties/C13.vos Properties/C13.vok Properties/C13.required_vos: Properties/C1
 Proofs/Ledger.vo Proofs/Ledger.glob Proofs/Ledger.v.beautified Proofs/Ledger.required_vo: Proofs/Ledger.v Model/Types.vo Model/Map.vo Model/Side.vo Model/Book.vo Proofs/Basic.vo
 Proofs/Ledger.vio: Proofs/Ledger.v Model/Types.vio Model/Map.vio Model/Side.vio Model/Book.vio Proofs/Basic.vio
 Proofs/Ledger.vos Proofs/Ledger.vok Proofs/Ledger.required_vos: Proofs/Ledger.v Model/Types.vos Model/Map.vos Model/Side.vos Model/Book.vos Proofs/Basic.vos
-Properties/C03.vo Properties/C03.glob Properties/C03.v.beautified Properties/C03.required_vo: Properties/C03.v Model/Types.vo Model/Book.vo Proofs/Ledger.vo
-Properties/C03.vio: Properties/C03.v Model/Types.vio Model/Book.vio Proofs/Ledger.vio
-Properties/C03.vos Properties/C03.vok Properties/C03.required_vos: Properties/C03.v Model/Types.vos Model/Book.vos Proofs/Ledger.vos
+Properties/C03.vo Properties/C03.glob Properties/C03.v.beautified Properties/C03.required_vo: Properties/C03.v Model/Types.vo Model/Book.vo Spec/RefBook.vo Proofs/Ledger.vo Proofs/Refine.vo Proofs/Volumes.vo Proofs/PosVol.vo Proofs/LedgerRef.vo
+Properties/C03.vio: Properties/C03.v Model/Types.vio Model/Book.vio Spec/RefBook.vio Proofs/Ledger.vio Proofs/Refine.vio Proofs/Volumes.vio Proofs/PosVol.vio Proofs/LedgerRef.vio
+Properties/C03.vos Properties/C03.vok Properties/C03.required_vos: Properties/C03.v Model/Types.vos Model/Book.vos Spec/RefBook.vos Proofs/Ledger.vos Proofs/Refine.vos Proofs/Volumes.vos Proofs/PosVol.vos Proofs/LedgerRef.vos
 Proofs/EnvProps.vo Proofs/EnvProps.glob Proofs/EnvProps.v.beautified Proofs/EnvProps.required_vo: Proofs/EnvProps.v Model/Types.vo Model/Map.vo Model/Side.vo Model/Book.vo Model/Obs.vo Model/Rng.vo Model/Env.vo Model/EnvObs.vo Proofs/Basic.vo
 Proofs/EnvProps.vio: Proofs/EnvProps.v Model/Types.vio Model/Map.vio Model/Side.vio Model/Book.vio Model/Obs.vio Model/Rng.vio Model/Env.vio Model/EnvObs.vio Proofs/Basic.vio
 Proofs/EnvProps.vos Proofs/EnvProps.vok Proofs/EnvProps.required_vos: Proofs/EnvProps.v Model/Types.vos Model/Map.vos Model/Side.vos Model/Book.vos Model/Obs.vos Model/Rng.vos Model/Env.vos Model/EnvObs.vos Proofs/Basic.vos
@@ -148,6 +148,9 @@ Proofs/Uncrossed.vos Proofs/Uncrossed.vok Proofs/Uncrossed.required_vos: Proofs/
 Proofs/LifeRef.vo Proofs/LifeRef.glob Proofs/LifeRef.v.beautified Proofs/LifeRef.required_vo: Proofs/LifeRef.v Model/Types.vo Model/Map.vo Model/Side.vo Model/Book.vo Model/Obs.vo Spec/RefBook.vo Spec/Monitors.vo Proofs/Basic.vo Proofs/MapLemmas.vo Proofs/Refine.vo Proofs/Volumes.vo Proofs/Reload.vo Proofs/PosVol.vo
 Proofs/LifeRef.vio: Proofs/LifeRef.v Model/Types.vio Model/Map.vio Model/Side.vio Model/Book.vio Model/Obs.vio Spec/RefBook.vio Spec/Monitors.vio Proofs/Basic.vio Proofs/MapLemmas.vio Proofs/Refine.vio Proofs/Volumes.vio Proofs/Reload.vio Proofs/PosVol.vio
 Proofs/LifeRef.vos Proofs/LifeRef.vok Proofs/LifeRef.required_vos: Proofs/LifeRef.v Model/Types.vos Model/Map.vos Model/Side.vos Model/Book.vos Model/Obs.vos Spec/RefBook.vos Spec/Monitors.vos Proofs/Basic.vos Proofs/MapLemmas.vos Proofs/Refine.vos Proofs/Volumes.vos Proofs/Reload.vos Proofs/PosVol.vos
+Proofs/LedgerRef.vo Proofs/LedgerRef.glob Proofs/LedgerRef.v.beautified Proofs/LedgerRef.required_vo: Proofs/LedgerRef.v Model/Types.vo Model/Map.vo Model/Side.vo Model/Book.vo Model/Obs.vo Spec/RefBook.vo Spec/Monitors.vo Proofs/Basic.vo Proofs/MapLemmas.vo Proofs/Ledger.vo Proofs/Refine.vo Proofs/Volumes.vo Proofs/Views.vo Proofs/Reload.vo Proofs/PosVol.vo Proofs/LifeRef.vo
+Proofs/LedgerRef.vio: Proofs/LedgerRef.v Model/Types.vio Model/Map.vio Model/Side.vio Model/Book.vio Model/Obs.vio Spec/RefBook.vio Spec/Monitors.vio Proofs/Basic.vio Proofs/MapLemmas.vio Proofs/Ledger.vio Proofs/Refine.vio Proofs/Volumes.vio Proofs/Views.vio Proofs/Reload.vio Proofs/PosVol.vio Proofs/LifeRef.vio
+Proofs/LedgerRef.vos Proofs/LedgerRef.vok Proofs/LedgerRef.required_vos: Proofs/LedgerRef.v Model/Types.vos Model/Map.vos Model/Side.vos Model/Book.vos Model/Obs.vos Spec/RefBook.vos Spec/Monitors.vos Proofs/Basic.vos Proofs/MapLemmas.vos Proofs/Ledger.vos Proofs/Refine.vos Proofs/Volumes.vos Proofs/Views.vos Proofs/Reload.vos Proofs/PosVol.vos Proofs/LifeRef.vos
 Properties/C01.vo Properties/C01.glob Properties/C01.v.beautified Properties/C01.required_vo: Properties/C01.v Model/Types.vo Model/Map.vo Model/Side.vo Model/Book.vo Model/Obs.vo Spec/RefBook.vo Proofs/Ledger.vo Proofs/Refine.vo Proofs/RefProps.vo Proofs/Volumes.vo Proofs/Reload.vo
 Properties/C01.vio: Properties/C01.v Model/Types.vio Model/Map.vio Model/Side.vio Model/Book.vio Model/Obs.vio Spec/RefBook.vio Proofs/Ledger.vio Proofs/Refine.vio Proofs/RefProps.vio Proofs/Volumes.vio Proofs/Reload.vio
 Properties/C01.vos Properties/C01.vok Properties/C01.required_vos: Properties/C01.v Model/Types.vos Model/Map.vos Model/Side.vos Model/Book.vos Model/Obs.vos Spec/RefBook.vos Proofs/Ledger.vos Proofs/Refine.vos Proofs/RefProps.vos Proofs/Volumes.vos Proofs/Reload.vos
